@@ -1029,3 +1029,63 @@ fn iterator_reentrancy_cases(eps: &[(String, String)], f: &mut dyn FnMut(Case)) 
         }
     }
 }
+
+// ---- (g) extreme depth: finite values nested 2000 .. 100000 deep through the traversal templates, and
+//          dropped at scope exit (100000 / 300000). Every case is tagged val:cyclic-deep (a native stack
+//          overflow is a VIOLATION unless a listed finding covers that entry point) ------------------------
+
+fn extreme_depth_cases(f: &mut dyn FnMut(Case)) {
+    let kinds = [("tuple", "(1,)", "(x,)", "(y,)"), ("list", "[1]", "[x]", "[y]"), ("map", "{v: 1}", "{v: x}", "{v: y}")];
+    // (body, tags): bodies end in a small value so that the worker's display of the result is not
+    // what traverses the deep value (unless that is the point of the template)
+    let templates: &[(&str, &[&str])] = &[
+        ("json.to_string x\nnull", &["json.to_string"]),
+        ("yaml.to_string x\nnull", &["yaml.to_string"]),
+        ("toml.to_string {v: x}\nnull", &["toml.to_string"]),
+        ("s = '{x}'\nsize s", &["deep:display"]),
+        ("s = '{x:?}'\nsize s", &["deep:display"]),
+        ("s = string.format('{}', x)\nsize s", &["deep:display"]),
+        ("x", &["deep:display"]),
+        ("throw x", &["deep:display"]),
+        ("x == y", &["op:=="]),
+        ("x != y", &["op:!="]),
+        ("x < y", &["op:<"]),
+        ("test.assert_eq x, y\nnull", &["test.assert_eq", "deep:display"]),
+        ("r = koto.deep_copy x\nnull", &["koto.deep_copy"]),
+        ("r = copy x\nnull", &["koto.copy"]),
+        ("koto.hash x", &["deep:hash"]),
+        ("m = {}\nm.insert(x, 1)\nsize m", &["deep:map-key"]),
+        ("m = {}\nm.insert((x, 1), 1)\nm.get((y, 1))", &["deep:map-key"]),
+        ("size x", &["op:size"]),
+        ("[x, 1].contains(y)", &["list.contains"]),
+        ("(x, 1).contains(y)", &["tuple.contains"]),
+        ("l = [x, y]\nl.sort()\nnull", &["list.sort"]),
+        ("r = [x, y].min()\nnull", &["iterator.min"]),
+        ("r = x.to_list()\nnull", &["iterator.to_list"]),
+        ("r = [x, [y]].flatten().to_list()\nnull", &["iterator.flatten"]),
+        ("match x\n  (a,) then 1\n  [a] then 2\n  else 3", &["op:match"]),
+        ("r = koto.type x\nr", &["koto.type"]),
+        ("export z = x\nnull", &["koto.exports"]),
+        ("f = |v| size v\nf x", &["op:call"]),
+        ("g = || yield x\nr = g().next()\nnull", &["op:yield"]),
+    ];
+    for (kind, init, wrap_x, wrap_y) in kinds {
+        // nothing but building the value and dropping it when the script ends — emitted first: when
+        // the drop alone overflows the stack at some depth, every other template at that depth (or
+        // deeper) of the same kind dies for the same reason and is attributed to it
+        for depth in [2000usize, 5000, 20000, 100000, 300000] {
+            let text = format!("x = {}\nfor i in 0..{}\n  x = {}\nnull\n", init, depth, wrap_x);
+            f(Case { kind: 'R', text, group: "extreme-depth", apis: vec!["deep:drop".to_string(), CYCLIC_DEEP.to_string(), format!("depth:{}:{}", kind, depth), "gen:extreme-depth".to_string()] });
+        }
+        for depth in [2000usize, 5000, 20000, 100000] {
+            for (body, tags) in templates {
+                let text = format!("x = {}\ny = {}\nfor i in 0..{}\n  x = {}\n  y = {}\n{}\n", init, init, depth, wrap_x, wrap_y, body);
+                let mut apis: Vec<String> = tags.iter().map(|t| t.to_string()).collect();
+                apis.push(CYCLIC_DEEP.to_string());
+                apis.push(format!("depth:{}:{}", kind, depth));
+                apis.push("gen:extreme-depth".to_string());
+                f(Case { kind: 'R', text, group: "extreme-depth", apis });
+            }
+        }
+    }
+}
